@@ -154,6 +154,8 @@ func makePlaintextRedirects(allConfigs []*SiteConfig) []*SiteConfig {
 	for i, cfg := range allConfigs {
 		if cfg.TLS.Enabled &&
 			!cfg.TLS.NoRedirect &&
+			// explicitly-HTTP sites will not serve TLS (see MakeServers)
+			cfg.Addr.Port != httpPort && cfg.Addr.Scheme != "http" &&
 			!hostHasOtherPort(allConfigs, i, httpPort) &&
 			(cfg.Addr.Port == httpsPort || !hostHasOtherPort(allConfigs, i, httpsPort)) {
 			allConfigs = append(allConfigs, redirPlaintextHost(cfg))
